@@ -470,21 +470,22 @@ Fixpoint contract_run (d : dom) (ops : list sinkop) : bool :=
 (* ---------- rose-tree view ---------- *)
 Inductive tree := T (id : nid) (x : data) (ks : list tree).
 
+Fixpoint all_some {A B} (f : A -> option B) (l : list A) : option (list B) :=
+  match l with
+  | [] => Some []
+  | x :: t =>
+    match f x, all_some f t with
+    | Some a, Some b => Some (a :: b)
+    | _, _ => None
+    end
+  end.
+
 (* None when the fuel does not suffice (cyclic arena, or fuel below the depth) *)
 Fixpoint to_tree (fuel : nat) (d : dom) (n : nid) : option tree :=
   match fuel with
   | 0 => None
   | S f =>
-    let fix go (l : list nid) : option (list tree) :=
-      match l with
-      | [] => Some []
-      | k :: t =>
-        match to_tree f d k, go t with
-        | Some a, Some b => Some (a :: b)
-        | _, _ => None
-        end
-      end in
-    match go (kids d n) with
+    match all_some (to_tree f d) (kids d n) with
     | Some ts => Some (T n (data_of d n) ts)
     | None => None
     end
